@@ -8,9 +8,10 @@ ID = "C15"
 LEVEL = "exploration"
 RULE = ("generated definition histories over a family of same-named packet classes sharing one cache file (permuted widths with the "
         "same source length, sign/byte-order/option flips, vectorize/annotate/pack-only/unpack-only/generation-off variants, unrelated "
-        "shapes, described fields with different descriptor hooks, a module/class pair colliding on the cache file name): a history is "
+        "shapes, mirrored width swaps that additive checksums cannot see, non-ASCII field names swapped, described fields with different descriptor hooks, a module/class pair colliding on the cache file name): a history is "
         "a sequence of <=4 process segments (each a fresh forked process - or, for one segment in five, a brand-new interpreter started with -O, which uses a different bytecode file - bytecode writing on or off, optionally with an equalised "
-        "clock so that same-size sources look unchanged to the bytecode cache), each defining 1-4 variants with repeats; oracle: after "
+        "clock so that same-size sources look unchanged to the bytecode cache), each defining 1-4 variants with repeats; plus EVERY ordered pair "
+        "of variants (B defined over A's cache, in the same process or in the next one; thorough: both, bytecode on and off); oracle: after "
         "every definition the new class and every class defined earlier in the same process must define successfully and unpack/pack "
         "the vector set exactly as the reference model says for ITS OWN declaration. Non-trivial = a definition that finds a cache "
         "file written for a different declaration, or by the same declaration in another process; distinct = the history")
@@ -66,15 +67,31 @@ def run_history(ctx, hist, V, vmap):
         shutil.rmtree(famdir, ignore_errors=True)
 
 
+def run_pairs(shard, ctx, V, vmap, nshards):
+    """every ORDERED pair of variants: B defined where A's cache is - in the same process / in the next process"""
+    ids = sorted(vmap)
+    pairs = [(a, b) for a in ids for b in ids if a != b]
+    for n, (a, b) in enumerate(pairs):
+        if n % nshards != shard["k"]:
+            continue
+        modes = [(n // nshards) % 2] if ctx.tier == "quick" else [0, 1]
+        for mode in modes:
+            for bytecode in ([False] if ctx.tier == "quick" else [False, True]):
+                hist = [(bytecode, True, [a, b], False)] if mode == 0 else [(bytecode, True, [a], False), (bytecode, True, [b], False)]
+                run_history(ctx, hist, V, vmap)
+                ctx.count("ordered_pairs", "same process" if mode == 0 else "next process")
+
+
 def run_shard(shard, ctx):
     V = procs.variant_catalogue()
     vmap = {v["id"]: v for v in V}
     ids = sorted(vmap)
+    run_pairs(shard, ctx, V, vmap, 16 if ctx.tier == "quick" else 64)
     opt = st.sampled_from([False, False, False, False, True])
     seg = st.tuples(st.booleans(), st.booleans(), st.lists(st.sampled_from(ids), min_size=1, max_size=4), opt)
     # bias: histories that stay on the two-integer variants (same cache file, same source length) are the adversarial ones
     core = [i for i in ids if i.startswith("hb") or i.startswith("bh") or i.startswith("four_") or i.startswith("mix_") or
-            i in ("auto", "plain", "collide_a", "collide_b", "odd", "odd_last", "data")]
+            i.startswith("sym_") or i.startswith("uni_") or i in ("auto", "plain", "collide_a", "collide_b", "odd", "odd_last", "data")]
     seg_core = st.tuples(st.booleans(), st.booleans(), st.lists(st.sampled_from(core), min_size=1, max_size=4), opt)
     hist = st.lists(st.one_of(seg, seg_core, seg_core), min_size=1, max_size=4)
     run_given(ctx, hist, lambda h: run_history(ctx, h, V, vmap), 150 if ctx.tier == "quick" else 1500)
